@@ -761,6 +761,12 @@ func tokenize(s string) []string {
 			continue
 		}
 		switch c {
+		case ';':
+			// comment to end of line
+			flush()
+			for i < len(s) && s[i] != '\n' {
+				i++
+			}
 		case '|':
 			flush()
 			inBar = true
